@@ -101,6 +101,7 @@ type Node struct {
 	TotalTxns uint64
 	// Tags records generator events (for non-triviality classification).
 	Tags []string
+	fees int64
 }
 
 // Block returns a fresh btcutil.Block (ProcessBlock caches heights in it).
@@ -418,7 +419,12 @@ func (t *Tree) Extend(parent *Node, opt BlockOpt) *Node {
 			cb.AddTxOut(o)
 		}
 	} else {
-		cb.AddTxOut(&wire.TxOut{Value: Subsidy(height, p) + fees + opt.CoinbaseValueDelta, PkScript: OpTrue})
+		v := Subsidy(height, p) + fees + opt.CoinbaseValueDelta
+		if opt.DupCoinbase {
+			// identical coinbases need identical outputs: claim the subsidy only
+			v = Subsidy(height, p) + opt.CoinbaseValueDelta
+		}
+		cb.AddTxOut(&wire.TxOut{Value: v, PkScript: OpTrue})
 	}
 	txs := append([]*wire.MsgTx{cb}, opt.Txs...)
 	ver := opt.Version
@@ -429,7 +435,7 @@ func (t *Tree) Extend(parent *Node, opt BlockOpt) *Node {
 	msg.Header.Bits = t.requiredBits(parent, ts)
 	msg.Header.MerkleRoot = merkleRoot(txs)
 
-	n := &Node{Idx: len(t.Nodes), Parent: parent, Msg: msg, Height: height, Self: Valid}
+	n := &Node{Idx: len(t.Nodes), Parent: parent, Msg: msg, Height: height, Self: Valid, fees: fees}
 	wantFail := false
 	if opt.Break != "" {
 		wantFail = t.applyBreak(n, opt.Break)
@@ -496,7 +502,9 @@ func (t *Tree) applyBreak(n *Node, rule string) bool {
 			n.Self = InvalidSanity
 		}
 	case "coinbase-overpay":
-		msg.Transactions[0].TxOut[0].Value++
+		// one satoshi more than subsidy + fees (a duplicate-able coinbase
+		// claims less than it may, so "+1" alone would still be valid)
+		msg.Transactions[0].TxOut[0].Value = Subsidy(n.Height, t.Params) + n.fees + 1
 		msg.Header.MerkleRoot = merkleRoot(msg.Transactions)
 		n.Self = InvalidConnect
 	default:
@@ -551,4 +559,13 @@ func (t *Tree) Describe() string {
 		s += ")"
 	}
 	return s
+}
+
+// DupCoinbaseHash returns the txid shared by all DupCoinbase coinbases that
+// claim the subsidy of the given height.
+func (t *Tree) DupCoinbaseHash(height int32) chainhash.Hash {
+	cb := wire.NewMsgTx(1)
+	cb.AddTxIn(&wire.TxIn{PreviousOutPoint: wire.OutPoint{Index: 0xffffffff}, SignatureScript: []byte{0x00, 0x00}, Sequence: 0xffffffff})
+	cb.AddTxOut(&wire.TxOut{Value: Subsidy(height, t.Params), PkScript: OpTrue})
+	return cb.TxHash()
 }
